@@ -2,11 +2,13 @@ use crate::infra::Ctx;
 pub mod c01;
 pub mod c01real;
 pub mod c02;
+pub mod c03;
 pub mod c06;
 pub mod c07;
 pub mod c08;
 pub mod c09;
 pub mod c10;
+pub mod c12;
 pub mod c13;
 pub mod c14;
 pub mod c15;
@@ -19,11 +21,14 @@ pub fn run(ctx: &Ctx) -> Option<(&'static str, &'static str)> {
     match ctx.id.as_str() {
         "C01" => Some(c01::run(ctx)),
         "C02" => Some(c02::run(ctx)),
+        "C03" => Some(c03::run_c03(ctx)),
+        "C11" => Some(c03::run_c11(ctx)),
         "C06" => Some(c06::run(ctx)),
         "C07" => Some(c07::run(ctx)),
         "C08" => Some(c08::run(ctx)),
         "C09" => Some(c09::run(ctx)),
         "C10" => Some(c10::run(ctx)),
+        "C12" => Some(c12::run(ctx)),
         "C13" => Some(c13::run(ctx)),
         "C14" => Some(c14::run(ctx)),
         "C15" => Some(c15::run(ctx)),
